@@ -52,9 +52,75 @@ REQUIRED = [
     "on_disconnection_rule_checked",
     "udp_fresh_generator_checked",
     "udp_burst_behind_failing_datagram",
+    "stalled_handshake_dropped_at_its_timeout",
+    "standalone_stalled_handshake_dropped",
 ]
 EXHAUSTIVE = {"quick": True, "thorough": False}
 WATCHDOG = {"quick": 1200, "thorough": 7200}
+
+HS_TIMEOUT = 0.3
+
+
+def standalone_tls_stall_case(which: str) -> dict:
+    """the blocking server: StandaloneTCPNetworkServer(ssl=..., ssl_handshake_timeout=0.5) with the shutdown timeout unset or
+    much larger; a client that connects and never starts its handshake is dropped at the handshake timeout (real time: the verdict
+    is 'still open 30 times the configured value later'), healthy TLS clients are served meanwhile"""
+    import ssl as _ssl
+    import threading
+    import time
+
+    from easynetwork.servers.standalone_tcp import StandaloneTCPNetworkServer
+
+    res: dict[str, Any] = {"problems": [], "triggered": True}
+    records: list = []
+    kw = {"ssl_handshake_timeout": 0.5}
+    if which == "both-set":
+        kw["ssl_shutdown_timeout"] = 40.0
+    log: list = []
+    server = StandaloneTCPNetworkServer(netutil.rand_loopback(), 0, StreamProtocol(StringLineSerializer()), StreamHandler(set(), "", "", log), ssl=tlspeer.server_context("1.3"), logger=quiet_logger(records), **kw)
+    up = threading.Event()
+    th = threading.Thread(target=lambda: server.serve_forever(is_up_event=up), daemon=True)
+    th.start()
+    try:
+        if not up.wait(30):
+            res["problems"].append("standalone TLS server did not come up")
+            return res
+        a = server.get_addresses()[0]
+        stalled = socket.create_connection((a.host, a.port), timeout=10)
+        t0 = time.monotonic()
+        # a healthy client is served while the other one stalls
+        cctx = tlspeer.client_context("1.3")
+        with socket.create_connection((a.host, a.port), timeout=10) as raw:
+            with cctx.wrap_socket(raw, server_hostname="localhost") as tls_sock:
+                tls_sock.sendall(b"hello\n")
+                buf = b""
+                while not buf.endswith(b"\n"):
+                    d = tls_sock.recv(100)
+                    if not d:
+                        break
+                    buf += d
+                if buf != b"hello\n":
+                    res["problems"].append(f"healthy client of the standalone TLS server was answered {buf!r}")
+                else:
+                    res["exchanges"] = 1
+        stalled.settimeout(15.0 - min(14.0, time.monotonic() - t0))
+        try:
+            d = stalled.recv(100)
+            res["stalled_closed_after"] = time.monotonic() - t0
+            if d:
+                res["problems"].append(f"the stalled connection received {d!r}")
+        except (TimeoutError, socket.timeout):
+            res["problems"].append(f"set-up fault tls-stalled (standalone server, {which}): the stalled connection is still open {time.monotonic() - t0:.1f} s after connecting although ssl_handshake_timeout=0.5 was configured: not closed at the configured timeout")
+        except OSError:
+            res["stalled_closed_after"] = time.monotonic() - t0
+        stalled.close()
+    finally:
+        server.shutdown()
+        server.server_close()
+        th.join(20)
+    res["records"] = records[-4:]
+    return res
+
 
 EXC_NAMES = ["ValueError", "KeyError", "Custom", "ExceptionGroup", "NestedGroupWithClientClosed", "ConnectionResetError", "BrokenPipeError", "ClientClosedError", "TimeoutError", "ReRaisedParseError", "RuntimeErrorCrashed"]
 TCP_POSITIONS = ["on_connection", "on_connection_gen_before", "on_connection_gen_after", "handle_before_yield", "handle_after_1", "handle_after_2", "handle_in_parse_error", "handle_in_timeout", "on_disconnection"]
@@ -293,7 +359,7 @@ def tcp_scenario(tls: bool, exc: str | None, position: str | None, setup_fault: 
         server = AsyncTCPNetworkServer(
             netutil.rand_loopback(), 0, StreamProtocol(StringLineSerializer()), handler, backend,
             ssl=tlspeer.server_context("1.3") if tls else None,
-            ssl_handshake_timeout=0.3 if tls else None, ssl_shutdown_timeout=0.3 if tls else None,
+            ssl_handshake_timeout=HS_TIMEOUT if tls else None, ssl_shutdown_timeout=7.0 if tls else None,  # distinct values: each must reach its own place
             logger=quiet_logger(records),
         )
         up = _Up()
@@ -332,6 +398,7 @@ def tcp_scenario(tls: bool, exc: str | None, position: str | None, setup_fault: 
             await asyncio.sleep(var["faulty_delay"])
             lp = asyncio.get_running_loop()
             await lp.sock_connect(s, addr)
+            t_conn = loop.time()
             if setup_fault is not None:
                 res["triggered"] = True
                 if setup_fault == "rst-after-accept":
@@ -360,6 +427,10 @@ def tcp_scenario(tls: bool, exc: str | None, position: str | None, setup_fault: 
                 c0 = PlainConn(s)
                 try:
                     res["faulty_end"] = await asyncio.wait_for(c0.wait_closed(), 20)
+                    if setup_fault == "tls-stalled":
+                        res["stalled_closed_after"] = loop.time() - t_conn
+                        if loop.time() - t_conn > HS_TIMEOUT + 0.25:
+                            res["problems"].append(f"set-up fault tls-stalled: the stalled connection was not closed at the configured ssl_handshake_timeout={HS_TIMEOUT} but {loop.time() - t_conn:.2f} virtual seconds after connecting")
                 except asyncio.TimeoutError:
                     res["problems"].append(f"set-up fault {setup_fault}: the server never closed the connection")
                 s.close()
@@ -631,6 +702,8 @@ def plan(tier: str, seed: int) -> list[dict]:
                 items.append({"kind": kind, "exc": e, "pos": p})
         for f in (SETUP_FAULTS_TCP if kind == "tcp" else SETUP_FAULTS_TLS):
             items.append({"kind": kind, "fault": f})
+    items.append({"kind": "standalone-tls", "fault": "tls-stalled:only-handshake-timeout-set"})
+    items.append({"kind": "standalone-tls", "fault": "tls-stalled:both-set"})
     for e in EXC_NAMES:
         for p in UDP_POSITIONS:
             items.append({"kind": "udp", "exc": e, "pos": p})
@@ -641,7 +714,7 @@ def plan(tier: str, seed: int) -> list[dict]:
         base = list(items)
         for rep in range(20):
             for it in base:
-                if it["kind"] == "udp":
+                if it["kind"] in ("udp", "standalone-tls"):
                     continue
                 items.append({**it, "var": {"faulty_delay": rng.choice([0, 0.05, 0.1, 0.3, 0.7, 1.2]), "n_healthy": rng.choice([1, 3, 5]), "n_faulty": rng.choice([1, 1, 2, 3]), "nap_every": rng.choice([1, 3, 5, 50])}})
     rng.shuffle(items)
@@ -659,8 +732,14 @@ def run_shard(params: dict, ctx) -> None:
             res = udp_scenario(it["exc"], it["pos"], it.get("burst", 0))
             if it.get("burst"):
                 ctx.count("udp_burst_behind_failing_datagram")
+        elif kind == "standalone-tls":
+            res = standalone_tls_stall_case(it["fault"].split(":")[1].replace("only-handshake-timeout-set", "only"))
+            if "stalled_closed_after" in res:
+                ctx.count("standalone_stalled_handshake_dropped")
         else:
             res = tcp_scenario(kind == "tls", it.get("exc"), it.get("pos"), it.get("fault"), it.get("var"))
+            if "stalled_closed_after" in res:
+                ctx.count("stalled_handshake_dropped_at_its_timeout")
         ctx.case(res["triggered"], repr(it))
         if res["triggered"]:
             ctx.count("setup_faults" if "fault" in it else "faults_triggered")
